@@ -25,7 +25,7 @@ func init() {
 		decided: "R1 every +1 on a backend's in-flight counter is followed on all exits, panics included, by a deferred -1 in the same function, and every +1 on its failure counter by exactly one goroutine that sleeps the fail timeout and adds -1, both only when the timeout is positive; " +
 			"R2 the counters are accessed only through sync/atomic; " +
 			"R3 the connection cap is compared in one place and incremented in another without CAS or a common lock (known finding: cap can be exceeded); " +
-			"R4 the decision table of Down/Full/Available on a host built by the code's own NewHost: down exactly when unhealthy or fails >= max_fails, full exactly when a cap is set and conns >= cap, available exactly when neither; R5 the counters are written only by the designated +1/-1 pairs, the in-flight pair inside a per-attempt function. Since round 4: R6 the selection tables (no backend at its cap is handed out while another has room). R7 along the proxy traces: in-flight count 1 during an attempt, 0 afterwards, one recorded failure per failed attempt. Since round 7: R9 a connection wrapper's Close closes the wrapped backend connection on every path.",
+			"R4 the decision table of Down/Full/Available on a host built by the code's own NewHost: down exactly when unhealthy or fails >= max_fails, full exactly when a cap is set and conns >= cap, available exactly when neither; R5 the counters are written only by the designated +1/-1 pairs, the in-flight pair inside a per-attempt function. Since round 4: R6 the selection tables (no backend at its cap is handed out while another has room). R7 along the proxy traces: in-flight count 1 during an attempt, 0 afterwards, one recorded failure per failed attempt. Since round 7: R9 a connection wrapper's Close closes the wrapped backend connection on every path. Since round 10: R10 a backend is made from its upstream (max_conns and fail_timeout are copied by value) only where no sub-directive parser call on the same upstream can still follow in the flow graph.",
 		notDecided: "that the counter equals the number of forwards at all times under every interleaving; timer accuracy.",
 	})
 }
@@ -640,6 +640,7 @@ func runC14(r *Report, p *Program) {
 	c14Trace(h)
 	c14R8(h)
 	c14R9(h)
+	c14R10(h)
 }
 
 // c14R5: who may write the counters, and where.
